@@ -490,7 +490,7 @@ func runC19(c *Ctx) int {
 	cov := map[string]any{
 		"evaluations":         total + good,
 		"distinct_nontrivial": nontriv,
-		"rule": "bases = final files of generated histories (page sizes 1024/2048/4096, splits, overflow values, nested and inline buckets, freelist persisted; every 6th without a persisted list); decode.Mutants enumerates every eligible target of each class: free id removed (unreachable-unfreed), free id duplicated (double-free), first page / each overflow page of a reachable allocation added to the list (reachable-free), bucket root pointer redirected to another bucket's root with the orphaned tree put on the freelist (pure double reference), branch element redirected to its sibling's page (double reference), reachable page's flags set to each of 6 values with neither the branch nor the leaf bit (bad type), neighbouring keys of a leaf / a branch swapped, made equal, or the first byte raised (key order inside a page), first key lowered below / last key raised above the parent's separators (key order against the parent). quick evaluates a seeded sample of 10 targets per class and base, thorough every target. A mutant counts only if D confirms its class on the mutated image. Oracles: Tx.Check (read-only open with preloaded freelist, array and hashmap backend) emits >= 1 error and `bbolt check` exits non-zero; on the unmutated files of all histories both report nothing / exit 0 with OK. Non-trivial fingerprint = (page size, class, pure, outcome per checker) with at least one checker reporting.",
+		"rule": "bases = final files of generated histories (page sizes 1024/2048/4096, splits, overflow values, nested and inline buckets, freelist persisted; every 6th without a persisted list); decode.Mutants enumerates every eligible target of each class: free id removed (unreachable-unfreed), free id duplicated (double-free), first page / each overflow page of a reachable allocation added to the list (reachable-free), bucket root pointer redirected to another bucket's root with the orphaned tree put on the freelist (pure double reference), branch element redirected to its sibling's page (double reference), reachable page's flags set to each of 6 values with neither the branch nor the leaf bit (bad type), neighbouring keys of a leaf / a branch swapped, made equal, or the first byte raised (key order inside a page), first key lowered below / last key raised above the parent's separators, and last key of a last child raised above the bound a higher ancestor assigns (key order against parent and ancestors; bases have three-level trees). quick evaluates a seeded sample of 10 targets per class and base, thorough every target. A mutant counts only if D confirms its class on the mutated image. Oracles: Tx.Check (read-only open with preloaded freelist, array and hashmap backend) emits >= 1 error and `bbolt check` exits non-zero; on the unmutated files of all histories both report nothing / exit 0 with OK. Non-trivial fingerprint = (page size, class, pure, outcome per checker) with at least one checker reporting.",
 		"samples":                       samples,
 		"bases":                         bases,
 		"eligible_targets_per_class":    enumTot,
@@ -543,6 +543,13 @@ func c19ShapedBase(seed int64, caseNo int, ps int, fl string) *gen.Program {
 	}
 	for i := 0; i < 30+r.Intn(30); i++ {
 		put([]int{0, 2}, i, ps/6)
+	}
+	// a bucket with long keys: small branch fan-out, so the tree gets three levels and inner branch pages
+	// whose last child takes its upper bound from the root
+	add(gen.Step{Op: "create", N: 5})
+	nlong := map[int]int{1024: 140, 2048: 260, 4096: 900}[ps]
+	for i := 0; i < nlong+r.Intn(40); i++ {
+		add(gen.Step{Op: "put", P: []int{5}, K: &gen.K{ID: i, Len: 90 + r.Intn(50)}, V: &gen.V{Seed: r.Uint32(), Len: 20 + r.Intn(30)}})
 	}
 	put([]int{1, 3}, 1, 10) // stays inline
 	put([]int{1, 3}, 2, 10)
